@@ -7,6 +7,8 @@
 //!     import resolvers, checkers, schema printer) and sent to the Lean model of the CLI driver (`Model/Cli.lean`);
 //!     its predicted outcome (exit code, command error, diagnostics, files listed, files written) is compared with
 //!     what the binary did.  `print_positioned_error` is compared text for text with its model on generated sources.
+//!     `composed:*` (c18/composed.rs): the model COMPOSED with the stage models (`stagesOf`) is evaluated on the whole
+//!     project — only the parsers are real (ASTs sent to the driver) — and compared with the binary's json run.
 //!  O: the property itself on the binary's behaviour (independent of the model), judged against the INJECTED faults —
 //!     including faults that exist only in the context of an importing document (`c18/ctx.rs`: clusters of operation
 //!     files linked by `#import`, each valid on its own).
@@ -26,6 +28,8 @@ use std::path::{Path, PathBuf};
 
 #[path = "c18/ctx.rs"]
 mod ctx;
+#[path = "c18/composed.rs"]
+mod composed;
 
 // ---------------------------------------------------------------------------------------------
 // cases
@@ -220,6 +224,8 @@ struct Stages {
     /// a printer panicked on the valid project (out of scope here: C08) — the case is skipped
     printer_panics: bool,
     messages: Vec<String>,
+    /// (variant name of `CheckErrorMessage`, message) of every checker diagnostic: the message-class table of composed.rs
+    kinds: Vec<(String, String)>,
 }
 
 struct MapResolver(HashMap<PathBuf, (&'static OperationDocument<'static>, &'static OperationExtension<'static>)>);
@@ -239,13 +245,18 @@ fn diag_of_positioned(messages: &mut Vec<String>, e: PositionedError) -> DiagR {
     DiagR { pos, extra: vec![], tag: tag_of(messages, e.into_inner().to_string()) }
 }
 
-fn diag_of_check(messages: &mut Vec<String>, e: CheckError) -> DiagR {
+fn diag_of_check(messages: &mut Vec<String>, kinds: &mut Vec<(String, String)>, e: CheckError) -> DiagR {
+    kinds.push((nvh::real::kind_of_message(&e.message), e.message.to_string()));
+    for (_, m) in &e.additional_info {
+        kinds.push((nvh::real::kind_of_message(m), m.to_string()));
+    }
     DiagR { pos: e.position, extra: e.additional_info.iter().map(|(p, _)| *p).collect(), tag: tag_of(messages, e.message.to_string()) }
 }
 
 fn compute_stages(dir: &Path, case: &Case) -> Stages {
     let mut st = Stages::default();
     let mut messages = vec![];
+    let mut kinds = vec![];
     // schema files
     let mut sdocs: Vec<TypeSystemOrExtensionDocument<'static>> = vec![];
     for (i, (_, text)) in case.schema_files.iter().enumerate() {
@@ -275,7 +286,7 @@ fn compute_stages(dir: &Path, case: &Case) -> Stages {
             Ok(r) => {
                 let r: &'static _ = Box::leak(Box::new(r));
                 for e in check_type_system_document(r) {
-                    st.scheck.push(diag_of_check(&mut messages, e));
+                    st.scheck.push(diag_of_check(&mut messages, &mut kinds, e));
                 }
                 resolved = Some(r);
             }
@@ -337,7 +348,7 @@ fn compute_stages(dir: &Path, case: &Case) -> Stages {
                 for (j, d) in docs.iter().enumerate() {
                     let d = d.as_ref().unwrap();
                     for e in check_operation_document(d, &ctx) {
-                        st.ops[j].check.push(diag_of_check(&mut messages, e));
+                        st.ops[j].check.push(diag_of_check(&mut messages, &mut kinds, e));
                     }
                     if st.ops[j].check.is_empty() {
                         if let Some(cfg) = &cfg {
@@ -361,6 +372,7 @@ fn compute_stages(dir: &Path, case: &Case) -> Stages {
         }
     }
     st.messages = messages;
+    st.kinds = kinds;
     st
 }
 
@@ -547,6 +559,8 @@ struct Ctx<'a> {
     cli: String,
     scratch: String,
     counter: usize,
+    /// message classes of the checker diagnostics seen so far (c18/composed.rs)
+    classes: composed::Classes,
 }
 
 impl<'a> Ctx<'a> {
@@ -600,6 +614,13 @@ impl<'a> Ctx<'a> {
             let after = nvh::cli::snapshot(&dir);
             self.rep.evaluations += 1;
             self.check_run(case, &cj, fmt, &dir, &stages, &ans, &run, &before, &after, &mut json_diag_summary);
+            self.classes.learn(&stages.kinds);
+            if fmt == "json" {
+                // the composed model on the same project: only the parsers are real
+                let req = composed::build_request(&dir, case, stages.printer_fails);
+                let cans = self.drv.one(&req.sexp);
+                composed::compare(&mut *self.rep, case, &cj, &dir, &req, &cans, &run, &before, &after, &self.classes);
+            }
             exits.push(run.code);
             model_ans = Some(ans);
             let _ = std::fs::remove_dir_all(&dir);
@@ -1513,7 +1534,7 @@ fn main() {
         if c.get("render").is_some() {
             replay_render(&mut rep, &mut drv, &c["render"]);
         } else {
-            let mut ctx = Ctx { rep: &mut rep, drv: &mut drv, cli, scratch, counter: 0 };
+            let mut ctx = Ctx { rep: &mut rep, drv: &mut drv, cli, scratch, counter: 0, classes: Default::default() };
             ctx.run_case(&Case::from_json(c));
         }
         rep.write(&args);
@@ -1522,7 +1543,7 @@ fn main() {
 
     let mut rng = Rng::new(args.seed);
     {
-        let mut ctx = Ctx { rep: &mut rep, drv: &mut drv, cli, scratch, counter: 0 };
+        let mut ctx = Ctx { rep: &mut rep, drv: &mut drv, cli, scratch, counter: 0, classes: Default::default() };
         let corpus = corpus();
         for (i, c) in corpus.iter().enumerate() {
             if i < 2 {
